@@ -434,11 +434,14 @@ def _check_function(rel: str, cls: str | None, fn: ast.FunctionDef, allowed_self
             if isinstance(t, ast.Name):
                 rebound.add(t.id)
     guarded -= (rebound - {"self", "cls"})
+    local_names = rebound - {"self", "cls"}
     for n in ast.walk(fn):
         if isinstance(n, (ast.Global, ast.Nonlocal)):
             fail(n, f"{where}: global / nonlocal state")
         for t in _targets(n):
-            if isinstance(t, (ast.Attribute, ast.Subscript)) and _root(t) in guarded:
+            # anything that is not a local of this function: self / cls / an argument / a module-level name (a
+            # function attribute or a module-level container used as a memo)
+            if isinstance(t, (ast.Attribute, ast.Subscript)) and (_root(t) in guarded or _root(t) not in local_names):
                 txt = _u(t)
                 if allowed_self_attrs is not None and isinstance(t, ast.Attribute) and _u(t.value) == "self" \
                         and t.attr in allowed_self_attrs:
